@@ -183,7 +183,7 @@ class Signatures:
         for name, sigs in classes.items():
             if name in by_name:
                 continue
-            if len(sigs) == 1 and sigs[0] is not None and name[:1].isupper():
+            if len(sigs) == 1 and sigs[0] is not None and name.lstrip("_")[:1].isupper():
                 self.table[name] = sigs[0]
 
 
